@@ -574,7 +574,7 @@ class n0list(n0list_):
                     if get__flag_compare_check_different_types():
                         result["difftypes"].append(
                             (
-                                f"{prefix}[{self_i}]",
+                                f"{prefix}[{self_i}]" + (f"<>[{other_i}]" if self_i != other_i else ""),
                                 (
                                     type(self[self_i]), self[self_i],
                                     type(other[other_i]), other[other_i]
